@@ -532,8 +532,23 @@ def describe_seq(seq, runner):
 
 
 def check_kvs(chk, rng, runner, catches, dirsize):
+    """sequences are generated, run and compared in chunks (bounded memory in the thorough tier)"""
+    nseq = 3500 if chk.tier == "quick" else 16000
+    acc = [None, None, None]
+    seen = set()
+    done = 0
+    while done < nseq:
+        n = min(1000, nseq - done)
+        r = _check_kvs_chunk(chk, rng, runner, catches, dirsize, n, seen, done)
+        for i in range(3):
+            if acc[i] is None:
+                acc[i] = r[i]
+        done += n
+    return tuple(acc)
+
+
+def _check_kvs_chunk(chk, rng, runner, catches, dirsize, nseq, seen, base):
     tier = chk.tier
-    nseq = 3500 if tier == "quick" else 40000
     maxops = 12 if tier == "quick" else 25
     seqs = []
     for j in range(nseq):
@@ -551,7 +566,6 @@ def check_kvs(chk, rng, runner, catches, dirsize):
     bad_prop = None
     bad_known = None
     bad_corr = None
-    seen = set()
     for j, (seq, recs) in enumerate(zip(seqs, all_recs)):
         mout, sout = outs[2 * j], outs[2 * j + 1]
         chk.count("evaluations", len(recs))
@@ -602,7 +616,7 @@ def check_kvs(chk, rng, runner, catches, dirsize):
                     bad_prop = dict(describe_seq(seq, runner), failing_op=i,
                                     what="dictionary specification says %r, implementation %r %s" % (s_, r["res"], r.get("exc", "")))
                     break
-        if j < 3:
+        if base == 0 and j < 3:
             chk.sample({"kind": "kvs", "max": seq["max"], "ops": [o["op"] + ":" + o.get("key", str(o.get("max"))) for o in seq["ops"]],
                         "final_mem": recs[-1]["state"][0]}, limit=3)
     return bad_prop, bad_known, bad_corr
@@ -627,7 +641,7 @@ def check_dfcache(chk, rng, workdir, dirsize):
     clock = PlannedClock()
     orig_time = fcm.time
     fcm.time = clock
-    nseq = 500 if chk.tier == "quick" else 6000
+    nseq = 500 if chk.tier == "quick" else 4000
     keys = ["a", "b", "c", "e/f", "e/g"]
     bad_prop = bad_corr = None
     reqs, runs = [], []
@@ -722,7 +736,7 @@ def check_tables(chk, rng, workdir, dirsize):
     clock = PlannedClock()
     orig_time = fcm.time
     fcm.time = clock
-    nseq = 300 if chk.tier == "quick" else 4000
+    nseq = 300 if chk.tier == "quick" else 3000
     keys = ["p", "q", "r/s", "r/t"]
     bad_prop = bad_corr = None
     reqs, runs = [], []
